@@ -598,7 +598,8 @@ POOLS: Dict[str, List[Any]] = {
     "Date": [None, 0, 86_400_000_000, -1, 1_600_000_000_000_000],
 }
 CSTR_POOL = {0: [None, ""], 1: [None, " ", "a", "Z", "b"], 2: [None, "  ", " a", "b ", "ab", "aa", "Ab"],
-             3: [None, " a ", "abc", "aab", "  b", "a  ", "aba", "   "]}
+             3: [None, " a ", "abc", "aab", "  b", "a  ", "aba", "   "],
+             4: [None, " ab ", "abcd", "aaaa", "  b ", "abab", "a   "]}
 
 
 def pool_for(o: Operand) -> List[Any]:
@@ -619,7 +620,8 @@ def pool_for(o: Operand) -> List[Any]:
 def z3_batch(decls: smt.Decls, assert_lists: Sequence[Sequence[Any]], timeout: float) -> List[str]:
     text_all = " ".join(a.sx for al in assert_lists for a in al if is_sym(a)) + " " + " ".join(decls.axioms)
     lines = [decls.header()] + smt._shared_defs(text_all)  # noqa: SLF001 - same composition as smt.query
-    for al in assert_lists:
+    for k, al in enumerate(assert_lists):
+        lines.append(f'(echo "@@case {k}")')        # answers are attributed by marker, not by position
         lines.append("(push 1)")
         for a in al:
             lines.append(f"(assert {a.sx if is_sym(a) else smt.lit(bool(a))})")
@@ -631,23 +633,36 @@ def z3_batch(decls: smt.Decls, assert_lists: Sequence[Sequence[Any]], timeout: f
     try:
         p = subprocess.run([core.Z3, "-smt2", f"-t:{int(timeout * 1000)}", f"-T:{int(timeout * len(assert_lists) + 20)}", path],
                            capture_output=True, text=True, timeout=timeout * len(assert_lists) + 40)
-        out = [ln.strip() for ln in p.stdout.splitlines() if ln.strip() in ("sat", "unsat", "unknown")]
-    except subprocess.TimeoutExpired:
-        out = []
+        text = p.stdout
+    except subprocess.TimeoutExpired as e:
+        text = (e.stdout or b"").decode() if isinstance(e.stdout, bytes) else (e.stdout or "")
     finally:
         try:
             os.unlink(path)
         except OSError:
             pass
-    return out + ["unknown"] * (len(assert_lists) - len(out))
+    res = ["unknown"] * len(assert_lists)
+    cur: Optional[int] = None
+    clean = True
+    for ln in text.splitlines():
+        ln = ln.strip()
+        if ln.startswith("@@case "):
+            cur, clean = int(ln.split()[1]), True
+        elif cur is not None and ln in ("sat", "unsat", "unknown"):
+            if clean:
+                res[cur] = ln
+            cur = None
+        elif cur is not None and ln:
+            clean = False          # an error message between the marker and the answer: the answer is not trusted
+    return res
 
 
 BATCH = 80
 
 
-def nice_constraints(c: Case) -> List[Any]:
+def nice_constraints(operands: Sequence[Operand]) -> List[Any]:
     out: List[Any] = []
-    for o in c.operands:
+    for o in operands:
         v = o.sv
         if v.sort == "int" and is_sym(v.v) and o.kind == "Integer":
             out += [Not(Eq(v.v, 0)), Ge(v.v, -20), Le(v.v, 20)]
@@ -741,11 +756,12 @@ def discharge_all(pv: Prover) -> None:  # noqa: C901
                     ob.detail = f"case [{c.label}]: the template leaves the SQL model for admissible operands ({why})"
                     break
                 # a readable witness when there is one: small non-zero numbers, lower-case letters
-                nice = nice_constraints(c)
-                if nice:
-                    r2 = run_smt(smt.query(eng.decls, asserts + nice, get=c.vars()), timeout=min(timeout, 5), tag="c01nice")
-                    if r2.status == "sat":
-                        r = r2
+                for nice in (nice_constraints(c.operands), nice_constraints(c.operands[:1])):
+                    if nice:
+                        r2 = run_smt(smt.query(eng.decls, asserts + nice, get=c.vars()), timeout=min(timeout, 5), tag="c01nice")
+                        if r2.status == "sat":
+                            r = r2
+                            break
                 ob.status = REFUTED
                 ob.detail = f"case [{c.label}] template {c.sql} counter-model {dict(list(r.model.items())[:12])}"
                 ob.finding_key = g.key
